@@ -128,6 +128,17 @@ public:
     virtual void
     ProcessXObjectTypeCallback(XObjectTypeCallback&     theCallbackObject) const;
 
+protected:
+
+    /**
+     * Derived classes must call this when the string value changes.
+     */
+    void
+    clearCachedNumberValue()
+    {
+        m_cachedNumberValue = 0.0;
+    }
+
 private:
 
     friend class XObjectResultTreeFragProxyText;
